@@ -210,12 +210,23 @@ def r085(ctx, f, fname, m):
     tail = strip_try(stmts_of(f["body"])[-1])
     ok = False
     why = "the function does not end in Ok((checked, count))"
-    if tail.get("k") == "ctor" and tail["args"]:
-        tp = peel(tail["args"][0])
+    call_direct = None
+    if tail.get("k") == "mcall" and tail["name"] == "map" and len(tail["args"]) == 1 and "Result" in (tail.get("path") or ""):
+        # `self.check_expr_type(res, line, tpe).map(|checked| (checked, n))`
+        cl_ = resolve(tail["args"][0])
+        if cl_.get("k") == "closure" and len(cl_.get("params", [])) == 1:
+            pb_ = pat_bindings(cl_["params"][0])
+            tb_ = peel(peel_block(cl_["body"]))
+            if len(pb_) == 1 and tb_.get("k") == "tuple" and tb_["es"] and is_local(tb_["es"][0], pb_[0][1]):
+                call_direct = peel(strip_try(tail["recv"]))
+    if (tail.get("k") == "ctor" and tail["args"]) or call_direct is not None:
+        tp = peel(tail["args"][0]) if call_direct is None else {"k": "tuple", "es": [{"k": "lit"}]}
         if tp.get("k") == "tuple":
             v = peel(tp["es"][0])
             init = simple_let_init(defs, v["id"]) if v.get("k") == "local" else None
             why = "the returned expression `%s` is not bound to the result of check_expr_type(..)?" % show(v)
+            if call_direct is not None:
+                init = {"k": "try", "e": call_direct}
             if init is not None and init.get("k") == "try":
                 call = peel(init["e"])
                 if call.get("k") == "mcall" and callee(call) == P + "check_expr_type":
@@ -294,23 +305,7 @@ def dispatcher(ctx):
         return keys
     # init vs next flag
     c = [x for x in ix.nodes if x.get("k") == "mcall" and callee(x) == P + "parse_state_init_or_next"]
-    ok = False
-    if len(c) == 1:
-        fl = resolve(c[0]["args"][2])
-        if fl.get("k") == "binary" and fl["op"] == "==":
-            for a_, b_ in ((fl["l"], fl["r"]), (fl["r"], fl["l"])):
-                if peel(a_).get("k") == "local" and peel(b_).get("k") == "lit" and peel(b_).get("v") == "init":
-                    # `op == "init"` on the operator token that was dispatched on
-                    ok = any(c_.get("k") == "armpat" and is_local(c_["scrut"], peel(a_)["id"]) for cs in norm__.expand_enum_conditions(ix, norm__.path_conditions(ix, c[0], arms=True)) for c_, _ in cs)
-                if peel(a_).get("k") == "local" and peel(b_).get("k") == "def" and str(peel(b_).get("dk", "")).startswith("ctor"):
-                    # `kind == LineKind::Init` with kind classified from the operator token: Init exactly for "init"
-                    alts = norm__._variant_conditions(ix, {"scrut": a_, "pat": {"k": "pvariant", "path": peel(b_)["path"], "subs": []}})
-                    lits = set()
-                    for cs in alts or []:
-                        for c_, pol in cs:
-                            if pol and c_.get("k") == "armpat":
-                                lits |= {alt.get("v") for alt in pat_alts(c_["pat"]) if alt.get("k") == "plit"}
-                    ok = bool(alts) and lits == {"init"}
+    ok = flag_encoding(ctx) is not None
     if c:
         ctx.inst("R08.4", "dispatch:init-flag", ok, c[0]["sp"], "init/next lines must pass `op == \"init\"` as the is-init flag: %s" % (show(c[0]["args"][2]) if c else "?"))
     # output / bad / constraint push the referenced expression (token 2) to the right list
@@ -507,11 +502,84 @@ def negation(ctx):
     ctx.inst("R08.3", "parse_line_id:abs-and-sign", ok, h["span"], "parse_line_id must return (|id|, id < 0): %s" % (show(oks[0])[:100] if oks else "?"))
 
 
+def flag_encoding(ctx):
+    """how the caller tells parse_state_init_or_next whether the line is `init` or `next`: {"init": True, "next": False} for the boolean
+    `op == "init"`, {"init": <variant path>, "next": <variant path>} for a two-valued enum chosen by the same test; None when neither"""
+    from .. import norm as norm__
+    f = ctx.fn("patronus", P + "parse_line")
+    ix = Index(f["body"])
+    c = [x for x in ix.nodes if x.get("k") == "mcall" and callee(x) == P + "parse_state_init_or_next"]
+    if len(c) != 1:
+        return None
+
+    def is_init_test(cnd):
+        cnd = resolve(peel(cnd))
+        if cnd.get("k") == "binary" and cnd["op"] == "==":
+            for a_, b_ in ((cnd["l"], cnd["r"]), (cnd["r"], cnd["l"])):
+                if peel(b_).get("k") == "lit" and peel(b_).get("v") == "init" and (tok_index(a_) == 1 or peel(a_).get("k") == "local"):
+                    return True
+        return False
+    fl = resolve(c[0]["args"][2])
+    if is_init_test(fl):
+        return {"init": True, "next": False}
+    if fl.get("k") == "binary" and fl["op"] == "==":
+        # `kind == LineKind::Init` with kind classified from the operator token: true exactly for "init"
+        for a_, b_ in ((fl["l"], fl["r"]), (fl["r"], fl["l"])):
+            if peel(a_).get("k") == "local" and peel(b_).get("k") == "def" and str(peel(b_).get("dk", "")).startswith("ctor"):
+                alts = norm__._variant_conditions(ix, {"scrut": a_, "pat": {"k": "pvariant", "path": peel(b_)["path"], "subs": []}})
+                lits = set()
+                for cs in alts or []:
+                    for c_, pol in cs:
+                        if pol and c_.get("k") == "armpat":
+                            lits |= {alt.get("v") for alt in pat_alts(c_["pat"]) if alt.get("k") == "plit"}
+                if alts and lits == {"init"}:
+                    return {"init": True, "next": False}
+    enc = {}
+    for conds, leaf in norm__.result_table(ix, c[0]["args"][2], unwrap=()):
+        leaf = peel(leaf)
+        if not (leaf.get("k") == "def" and str(leaf.get("dk", "")).startswith("ctor")):
+            return None
+        which = None
+        for c_, pol in conds:
+            if is_init_test(c_):
+                which = "init" if pol else "next"
+            if c_.get("k") == "armpat" and pol:
+                lits = {alt.get("v") for alt in pat_alts(c_["pat"]) if alt.get("k") == "plit"}
+                if lits == {"init"}:
+                    which = "init"
+                elif lits == {"next"}:
+                    which = "next"
+        if which is None or which in enc:
+            return None
+        enc[which] = leaf["path"]
+    return enc if set(enc) == {"init", "next"} else None
+
+
 def init_next(ctx):
     f = ctx.fn("patronus", P + "parse_state_init_or_next")
     ix = Index(f["body"])
     defs = local_defs(f)
     p_flag = (param_ids(f) + [None] * 4)[3]          # parse_state_init_or_next(&mut self, line, cont, is_init_not_next)
+    enc = flag_encoding(ctx) or {"init": True, "next": False}
+
+    def flag_says(conds):
+        """the set of line kinds ("init" / "next") the path conditions allow, judged by the tests of the flag parameter"""
+        allowed = {"init", "next"}
+        for c_, pol in conds:
+            if is_local(c_, p_flag) and isinstance(enc["init"], bool):
+                allowed &= {"init"} if pol == enc["init"] else {"next"}
+            elif c_.get("k") == "armpat" and is_local(c_["scrut"], p_flag) and not isinstance(enc["init"], bool):
+                paths = {alt.get("path") for alt in pat_alts(c_["pat"])}
+                if None in paths and any(alt.get("k") in ("pwild", "pbind") for alt in pat_alts(c_["pat"])):
+                    continue
+                hit = {k_ for k_, v_ in enc.items() if v_ in paths}
+                allowed &= hit if pol else ({"init", "next"} - hit)
+            elif c_.get("k") == "binary" and c_["op"] == "==" and not isinstance(enc["init"], bool):
+                for a_, b_ in ((c_["l"], c_["r"]), (c_["r"], c_["l"])):
+                    if is_local(a_, p_flag) and peel(b_).get("k") == "def":
+                        hit = {k_ for k_, v_ in enc.items() if v_ == peel(b_).get("path")}
+                        allowed &= hit if pol else ({"init", "next"} - hit)
+        return allowed
     checks = [n for n in ix.nodes if n.get("k") == "mcall" and callee(n) == P + "check_type"]
     mods = [n for n in ix.nodes if n.get("k") == "mcall" and n["name"] == "modify_state"]
     stores = []
@@ -557,16 +625,15 @@ def init_next(ctx):
         r = peel(st["r"])
         ok = r.get("k") == "ctor" and callee(r).endswith("Option::Some") and final_checked is not None and is_local(r["args"][0], final_checked)
         fld = field_path(st["l"])[2][-1]
-        conds = norm_.path_conditions(ix, st)
-        pos = any(is_local(c_, p_flag) and pol for c_, pol in conds)
-        neg = any(is_local(c_, p_flag) and not pol for c_, pol in conds)
-        flag_ok = (pos and not neg) if fld == "init" else (neg and not pos)
+        conds = norm_.path_conditions(ix, st, arms=True)
+        flag_ok = flag_says(conds) == {fld}
         ctx.inst("R08.5", "init_next:store#%d" % (i + 1), ok and flag_ok, st["sp"], "the state's %s must be set to the checked expression under the matching init/next flag: %s" % (fld, show(m)[:120]), sample=show(st)[:120])
     # array lifting only for init with a bit-vector operand on an array state
     lifts = [n for n in ix.nodes if n.get("k") == "mcall" and callee(n) == builders.CTX + "::array_const"]
     for l in lifts:
-        conds = norm_.path_conditions(ix, l)
-        has_flag = any(is_local(c_, p_flag) and pol for c_, pol in conds)
+        conds = norm_.path_conditions(ix, l, arms=True)
+        has_flag = flag_says(conds) == {"init"}
+        conds = [(c_, pol) for c_, pol in conds if c_.get("k") != "armpat"]
         is_bv = any(pol and c_.get("k") == "mcall" and c_["name"] == "is_bit_vector" for c_, pol in conds)
         is_arr = any(pol and c_.get("k") == "mcall" and c_["name"] == "is_array" and classify(c_["recv"])[0] == "state" for c_, pol in conds)
         iw = norm_.value_source(ix, defs, l["args"][1])
